@@ -147,12 +147,113 @@ def discipline(ctx, prog, f):
     return found
 
 
+def _stream_common_rotated(ctx, prog, f, sy, found, reads):
+    """the same loop written with a priming read: `let mut len = read()?; while len != 0 { update(&buf[0..len]); len = read()?; }`.
+    Judged by the same five statements as the one-read form: every read is `read(reader, &mut <whole buffer>)` and `?`-propagated; the one
+    `update` feeds buffer[0..len] where `len` is assigned from the Ok payload of a read and from nothing else, and the assignment of a
+    read's payload lies on every way from that read to the update; no read is reachable from a successful read without passing the
+    update; the loop is left to `finalize` only under len == 0; the only Ok value is finalize's."""
+    ctx.ob(R, "hash_stream_common: exactly one read call site", True, "2 (priming read + read at the end of the body: judged as the rotated form)", f.loc())
+    bad = []
+    bufs = set()
+    conts = {}
+    for ri, rt in reads:
+        a0, a1 = strip(sy.operand(rt["args"][0])), strip(sy.operand(rt["args"][1]))
+        if not (is_param(a0, "reader") and a1[0] == "local" and f.locals[a1[1]]["ty"].startswith("[u8;")):
+            bad.append("read(%s, %s)" % (show(a0), show(a1)))
+        bufs.add(canon(a1))
+        cl = classify_consumption(f, sy, ri, rt)
+        if cl[0] != "try":
+            bad.append("a read result is not `?`-propagated: %s" % (cl[1] if len(cl) > 1 else cl[0]))
+        else:
+            conts[ri] = cl[2]
+    ctx.ob(R, "hash_stream_common: read(reader, &mut <whole local buffer>)", not bad and len(bufs) == 1, "; ".join(bad) or "2 reads into %s" % sorted(bufs), f.loc())
+    if bad or len(bufs) != 1 or len(conts) != 2:
+        return len(found)
+    ups = [(i, t) for i, t in f.calls() if callee_of(t).endswith("Generator::update")]
+    ok = len(ups) == 1
+    why = "%d update calls" % len(ups)
+    L = None
+    if ok:
+        ui, ut = ups[0]
+        g, sl = strip(sy.operand(ut["args"][0])), strip(sy.operand(ut["args"][1]))
+        why = "update(%s, %s)" % (show(g), show(sl))
+        ok = is_param(g, "generator") and sl[0] == "call" and sl[1].endswith("::index") and canon(strip(sl[2][0])) in bufs
+        if ok:
+            rg = strip(sl[2][1])
+            ok = rg[0] == "agg" and rg[1].endswith("ops::Range::Range") and strip(rg[2][0])[0] == "const" and strip(rg[2][0])[1] == 0 and strip(rg[2][1])[0] == "local"
+            if ok:
+                L = strip(rg[2][1])[1]
+                ds = f.defs.get(L, [])
+                srcs = {}
+                for (b, _i, k, x) in ds:
+                    r, names = fpath(strip(sy.rvalue(x))) if k == "rv" else (None, None)
+                    if r is None or r[0] != "call" or names != ("<Continue>", "0"):
+                        ok = False
+                        why = "`len` has a definition that is not the Ok payload of a read"
+                        break
+                    srcs[b] = r
+                if ok:
+                    # each read's payload assignment lies on every way from that read to the update / to another read
+                    for ri, cont in conts.items():
+                        rt_ = [t for i, t in reads if i == ri][0]
+                        bblk = [u[1] for u in uses_of_local(f, rt_["dest"]["l"]) if u[0] == "arg"]
+                        mine = [b for b, r in srcs.items() if bblk and r[3] == bblk[0]]
+                        if len(mine) != 1:
+                            ok = False
+                            why = "the payload of a read is not assigned to `len` exactly once"
+                            break
+                        d = mine[0]
+                        if d != cont and (ui in f.reach_from(cont, avoid={d}) or any(r2 in f.reach_from(cont, avoid={d}) for r2, _ in reads)):
+                            ok = False
+                            why = "the update (or a read) is reachable from a read without its payload becoming `len`"
+                            break
+                    ok = ok and len(srcs) == 2
+    ctx.ob(R, "hash_stream_common: feeds exactly buffer[0..len], len = Ok payload of this iteration's read", ok, why, f.loc())
+    if len(ups) == 1:
+        ui = ups[0][0]
+        again = [ri for ri, cont in conts.items() if any(r2 in f.reach_from(cont, avoid={ui}) for r2, _ in reads)]
+        ctx.ob(R, "hash_stream_common: no iteration returns to read without feeding the chunk", not again,
+               "every Continue path to a read passes update" if not again else "a path re-reads without update", f.loc())
+    fins = [(i, t) for i, t in f.calls() if "Generator::finalize" in callee_of(t)]
+    ok = len(fins) == 1 and L is not None
+    why = "%d finalize calls" % len(fins)
+    if ok:
+        fi, ft = fins[0]
+        ats = [bool_atom(c) for c in path_conds(f, sy, fi)]
+        ok = any(a and a[0] == "Eq" and strip(a[1])[0] == "local" and strip(a[1])[1] == L and strip(a[2])[0] == "const" and strip(a[2])[1] == 0 for a in ats)
+        why = "finalize reached only when len == 0" if ok else "finalize reachable without len == 0: %s" % [a for a in ats]
+        ok = ok and is_param(strip(sy.operand(ft["args"][0])), "generator")
+    ctx.ob(R, "hash_stream_common: the read loop is left (to finalize) only when read returned 0", ok, why, f.loc())
+    oks = []
+    for i, j, s_ in f.stmts():
+        if s_["s"] == "assign" and s_["lhs"]["l"] == 0 and s_["rv"]["r"] == "agg" and s_["rv"]["kind"].get("variant") == "Ok":
+            oks.append(strip(sy.operand(s_["rv"]["ops"][0])))
+    good = []
+    for e in oks:
+        r, names = fpath(e)
+        if names == ("<Continue>", "0") and r[0] == "call" and "branch" in r[1] and strip(r[2][0])[0] == "call" and "Generator::finalize" in strip(r[2][0])[1] and \
+                is_param(strip(strip(r[2][0])[2][0]), "generator"):
+            good.append(e)
+    if not oks:
+        for i, t in f.calls():
+            if t["dest"]["l"] == 0 and callee_of(t).endswith("Result::<T, E>::map_err"):
+                a0 = strip(sy.operand(t["args"][0]))
+                if a0[0] == "call" and "Generator::finalize" in a0[1] and is_param(strip(a0[2][0]), "generator"):
+                    oks, good = [a0], [a0]
+    ctx.ob(R, "hash_stream_common: the only Ok value is the result of finalize(generator)", len(oks) == 1 and len(good) == 1,
+           "Ok payloads: %s" % [show(e)[:80] for e in oks], f.loc())
+    return len(found) + 1
+
+
 def stream_common(ctx, prog):
     doc(ctx)
     f = prog.fn("generate_easy_std::hash_stream_common")
     sy = Sym(f)
     found = discipline(ctx, prog, f)
     reads = [(i, t) for i, t in f.calls() if callee_of(t).endswith("io::Read::read")]
+    if len(reads) == 2:
+        return _stream_common_rotated(ctx, prog, f, sy, found, reads)
     ctx.ob(R, "hash_stream_common: exactly one read call site", len(reads) == 1, "%d" % len(reads), f.loc())
     if len(reads) != 1:
         return 0
